@@ -466,6 +466,44 @@ func (ex *Exec) vrt(g *G, f *Frame, name string, fn *ssa.Function, args []Value)
 		}
 		ex.assertTerm(label, ex.eqTerm(a, b), known)
 		return nil, false
+	case "PossibleIfAt":
+		// obligation "cond is satisfiable" that applies only when the premise is satisfiable
+		if ex.spec > 0 {
+			panic(mergeAbort{"possible in arm"})
+		}
+		label := fmt.Sprintf("%s[%d]", strArg(args[0]), ex.concInt(args[1], "label index"))
+		prem, cond := args[2].(Bool), args[3].(Bool)
+		rec := AssertRec{Label: label, Kind: "never"}
+		premSat := prem.T == nil && prem.C
+		if prem.T != nil {
+			r, _ := ex.Sol.Check([]*Term{prem.T}, nil)
+			premSat = r != Unsat
+			if r == Unknown {
+				rec.Result = "unknown"
+			}
+		}
+		switch {
+		case rec.Result == "unknown":
+		case !premSat:
+			rec.Result = "trivial"
+		case cond.T == nil:
+			if cond.C {
+				rec.Result = "trivial"
+			} else {
+				rec.Result = "violated"
+			}
+		default:
+			switch r, _ := ex.Sol.Check([]*Term{cond.T}, nil); r {
+			case Sat:
+				rec.Result = "holds"
+			case Unsat:
+				rec.Result = "violated"
+			default:
+				rec.Result = "unknown"
+			}
+		}
+		ex.Asserts = append(ex.Asserts, rec)
+		return nil, false
 	case "Possible", "PossibleAt":
 		if ex.spec > 0 {
 			panic(mergeAbort{"possible in arm"})
